@@ -19,6 +19,7 @@ class Graph:
         targets = set()
         sources = set()
         self.nedges = 0
+        first = None
         with open(path) as f:
             for line in f:
                 line = line.strip()
@@ -29,6 +30,8 @@ class Graph:
                     e = json.loads(e)
                 self.nedges += 1
                 s, t, a = e["f"], e["t"], e["a"]
+                if first is None:
+                    first = s
                 sources.add(s)
                 targets.add(t)
                 self.obs[t] = self.canon(e["o"])
@@ -37,9 +40,14 @@ class Graph:
                 elif s != t:
                     self.int_succ[s].add(t)
         init = sources - targets
-        if len(init) != 1:
+        if len(init) == 1:
+            self.init = next(iter(init))
+        elif first is not None:
+            # the initial state is reachable again (a stimulus that undoes another): with one worker
+            # TLC's breadth-first search expands the initial state first, so it is the first source
+            self.init = first
+        else:
             raise ValueError("cannot identify the initial state (%d candidates)" % len(init))
-        self.init = next(iter(init))
         self.states = sources | targets
         self._q = {}
 
